@@ -152,6 +152,33 @@ def run(ctx):
                 allc.append(observe(cid, "phased" if cls == "phased" else cls, obj, loci, n, small))
             except Exception as e:
                 ctx.violation("%s:exception" % cls, "%s: %s" % (type(e).__name__, e), {"n": n, "loci": loci[:5]})
+                continue
+            # the same object edited in place after its statistics were queried (remove some taxa, append others):
+            # the statistics must describe the matrix as it is now
+            if n >= 2 and (small or rng.random() < 0.3):
+                try:
+                    k = rng.randrange(1, n)
+                    obj.remove_taxa(np.array(rng.sample(range(n), k)))
+                    if rng.random() < 0.6:
+                        add = rng.randrange(1, 4)
+                        if cls == "phased":
+                            obj.append_taxa(np.array([[[rng.randrange(2) for _ in loci] for _ in range(add)] for _ in range(2)], dtype="int8"))
+                        else:
+                            obj.append_taxa(np.array([[rng.randrange(3) for _ in loci] for _ in range(add)], dtype="int8"))
+                    m = np.asarray(obj.mat)
+                    if cls == "phased":
+                        loci2 = [(int(((m[0, :, l] == 0) & (m[1, :, l] == 0)).sum()), int(((m[0, :, l] == 0) & (m[1, :, l] == 1)).sum()),
+                                  int(((m[0, :, l] == 1) & (m[1, :, l] == 0)).sum()), int(((m[0, :, l] == 1) & (m[1, :, l] == 1)).sum())) for l in range(len(loci))]
+                        n2 = int(m.shape[1])
+                    else:
+                        loci2 = [(int((m[:, l] == 0).sum()), int((m[:, l] == 1).sum()), 0, int((m[:, l] == 2).sum())) for l in range(len(loci))]
+                        n2 = int(m.shape[0])
+                    cid += 1
+                    c2 = observe(cid, "phased" if cls == "phased" else cls, obj, loci2, n2, False)
+                    c2["edited"] = True
+                    allc.append(c2)
+                except Exception as e:
+                    ctx.violation("%s:in-place-edit:exception" % cls, "%s: %s" % (type(e).__name__, e), {"n": n})
     verd = cases.validate(ctx, "GenoStats_Trace", "GenoStats_Trace.cfg", allc, "GenoStats_Trace", chunk=6, procs=14)
     ctx.traces += len(allc)
     site = {"phased": "DensePhasedGenotypeMatrix", "unphased": "DenseGenotypeMatrix",
@@ -163,7 +190,8 @@ def run(ctx):
         ctx.count(1, (c["cls"], c["n"], tuple(sorted(ks))) if nt else None)
         if v != "ok":
             extra = ":n=%d" % c["n"] if v.startswith("afreq-not-exactly") or v in ("afixed", "apoly") else ""
-            ctx.violation("%s:%s" % (site[c["cls"]], v), "TLC verdict %s (n=%d, %d loci)" % (v, c["n"], len(c["loci"])),
+            ctx.violation("%s:%s%s" % (site[c["cls"]], v, ":after-in-place-edit" if c.get("edited") else ""),
+                          "TLC verdict %s (n=%d, %d loci%s)" % (v, c["n"], len(c["loci"]), ", statistics queried, then taxa removed/appended in place" if c.get("edited") else ""),
                           {k: (c[k][:12] if isinstance(c[k], list) else c[k]) for k in c})
         if not c["dtypeok"]:
             ctx.violation("%s:requested-dtype" % site[c["cls"]], "a requested output dtype was not honoured", {"n": c["n"]})
